@@ -46,13 +46,13 @@ type XGroup struct {
 
 // Expect is everything the emitted package must contain.
 type Expect struct {
-	Pkg          string
-	BeginString  string
-	FieldConsts  map[string]string // Field<Name> -> number
-	Containers   []*XContainer
-	Files        []string
-	Conflated    []string // group names defined more than once with different members
-	EnumFiles    []string
+	Pkg         string
+	BeginString string
+	FieldConsts map[string]string // Field<Name> -> number
+	Containers  []*XContainer
+	Files       []string
+	Conflated   []string // group names defined more than once with different members
+	EnumFiles   []string
 }
 
 var goTypes = map[string]string{"Float": "float64", "Int": "int", "Raw": "[]byte", "Bool": "bool", "String": "string", "Time": "time.Time"}
